@@ -53,22 +53,56 @@ def run_batch(args, timeout):
     return scripts, traces, problems, unknown
 
 
-def model(traces, fuel=2500):  # accepted traces need < 100 expansions per event; more only on a leaking tree
-    inp = "".join("T %s %s\n" % (n, " ".join(toks)) for n, toks in traces.items())
-    p = subprocess.run([os.path.join(C.BIN, "c18fsm_model"), str(fuel)], input=inp.encode(),
-                       stdout=subprocess.PIPE, timeout=3000)
-    verdict, propfail, modelprop, summ = {}, {}, {}, {}
-    for l in p.stdout.decode().splitlines():
-        t = l.split(" ")
-        if t[0] in ("ACCEPT", "REJECT", "INCONCLUSIVE", "BADTRACE"):
-            verdict[t[1]] = (t[0], " ".join(t[2:]))
-        elif t[0] == "PROPFAIL":
-            propfail.setdefault(t[1], []).append((t[2], " ".join(t[3:])))
-        elif t[0] == "MODELPROP":
-            modelprop.setdefault(t[1], []).append(t[2])
-        elif t[0] == "SUMMARY":
-            summ = dict(kv.split("=") for kv in t[1:])
-    return verdict, propfail, modelprop, summ, p.returncode == 0 and bool(summ)
+def model_once(traces, fuel, shards):
+    names = list(traces)
+    shards = max(1, min(shards, len(names)))
+    chunks = [names[i::shards] for i in range(shards)]
+
+    def one(chunk):
+        inp = "".join("T %s %s\n" % (n, " ".join(traces[n])) for n in chunk)
+        p = subprocess.run([os.path.join(C.BIN, "c18fsm_model"), str(fuel)], input=inp.encode(),
+                           stdout=subprocess.PIPE, timeout=3000)
+        return p.returncode, p.stdout.decode()
+    verdict, propfail, modelprop, summ, ok = {}, {}, {}, {}, True
+    with cf.ThreadPoolExecutor(shards) as ex:
+        for rc, out in ex.map(one, chunks):
+            got = False
+            for l in out.splitlines():
+                t = l.split(" ")
+                if t[0] in ("ACCEPT", "REJECT", "INCONCLUSIVE", "BADTRACE"):
+                    verdict[t[1]] = (t[0], " ".join(t[2:]))
+                elif t[0] == "PROPFAIL":
+                    propfail.setdefault(t[1], []).append((t[2], " ".join(t[3:])))
+                elif t[0] == "MODELPROP":
+                    modelprop.setdefault(t[1], []).append(t[2])
+                elif t[0] == "SUMMARY":
+                    got = True
+                    for kv in t[1:]:
+                        k, v = kv.split("=")
+                        summ[k] = (max if k == "maxset" else int.__add__)(summ.get(k, 0), int(v))
+            ok = ok and rc == 0 and got
+    return verdict, propfail, modelprop, summ, ok
+
+
+def model(traces, shards=None):
+    """The extracted acceptor + the predicates on the observables.  Two passes: little fuel first (an accepted
+    trace needs few expansions per event; on a leaking tree the state sets explode and the verdict comes from
+    the predicates anyway), then much more fuel for the traces that were inconclusive and show no predicate failure."""
+    if not traces:
+        return {}, {}, {}, {"n": 0}, True
+    shards = shards or C.NPROC
+    verdict, propfail, modelprop, summ, ok = model_once(traces, 2500, shards)
+    again = {n: traces[n] for n, (v, _) in verdict.items() if v == "INCONCLUSIVE" and n not in propfail}
+    if again and ok:
+        v2, pf2, mp2, s2, ok2 = model_once(again, 150000, shards)
+        verdict.update(v2)
+        modelprop.update(mp2)
+        for k in ("accepted", "rejected", "quiet_final_states", "modelprop"):
+            summ[k] = summ.get(k, 0) + s2.get(k, 0)
+        summ["inconclusive"] = summ.get("inconclusive", 0) - len(again) + s2.get("inconclusive", 0)
+        summ["second_pass"] = summ.get("second_pass", 0) + len(again)
+        ok = ok and ok2
+    return verdict, propfail, modelprop, summ, ok
 
 
 PRED_TEXT = {
@@ -114,7 +148,7 @@ def one_leg(run, args, stats, samples, timeout=1500, pre=None):
                 again += 1
         confirmed[n] = again
     for k in ("accepted", "rejected", "inconclusive", "events", "snaps", "quiet_snaps", "subscriptions",
-              "quiet_final_states", "modelprop"):
+              "quiet_final_states", "modelprop", "second_pass"):
         stats[k] = stats.get(k, 0) + int(summ.get(k, 0))
     stats["scenarios"] = stats.get("scenarios", 0) + len(scripts)
     ops = stats.setdefault("op_distribution", {})
@@ -222,7 +256,7 @@ def leg(run):
     if os.path.exists(CORPUS):
         one_leg(run, ["-file", CORPUS, "-jobs", "4"], stats, samples)
     plan = ([("cycles", 64, 8), ("burst", 24, 4), ("timeout", 6, 3), ("cycleslong", 2, 2)] if quick else
-            [("cycles", 2400, 6), ("burst", 1200, 4), ("timeout", 60, 2), ("cycleslong", 120, 4)])
+            [("cycles", 1200, 6), ("burst", 600, 4), ("timeout", 48, 3), ("cycleslong", 48, 3)])
     jobs = []
     for k, (fam, n, j) in enumerate(plan):
         done = 0
@@ -237,9 +271,11 @@ def leg(run):
                 one_leg(run, a, stats, samples, pre=f.result())
         soak(run, stats, 2000, run.seed)  # alone: under CPU load its timing assumptions cost 5 s stalls
     else:
-        for a in jobs:
-            one_leg(run, a, stats, samples)
-        for i in range(6):
+        with cf.ThreadPoolExecutor(max_workers=2) as ex:   # two batches at a time (16 child processes)
+            fs = [ex.submit(run_batch, a, 3000) for a in jobs]
+            for a, f in zip(jobs, fs):
+                one_leg(run, a, stats, samples, pre=f.result())
+        for i in range(4):
             soak(run, stats, 6000, run.seed * 10 + i)
     distinct = len(stats.pop("distinct", set()))
     if stats.get("reported"):
@@ -254,6 +290,7 @@ def leg(run):
         "events": stats.get("events", 0),
         "op_distribution": stats.get("op_distribution", {}),
         "inconclusive": stats.get("inconclusive", 0),
+        "acceptor_second_pass": stats.get("second_pass", 0),
         "flaky_rejects": stats.get("flaky_rejects", 0),
         "soak": stats.get("soak", {}),
         "families": {f: n for f, n, _ in plan},
